@@ -145,7 +145,8 @@ PROPS = {
     "C05": dict(
         props="Props/C05.v", tables=["core", "json"],
         src=["py_to_json", "py_get_tree_info", "py_get_attributes_info", "py_get_constraints_info", "py_get_ctc_info",
-             "py_parse_ast_constraint", "py_parse_constraints"],
+             "py_parse_ast_constraint", "py_parse_constraints", "py_parse_tree", "py_parse_relations",
+             "py_parse_attributes", "py_JSONReader_parse_json"],
         suites=[suite_json.run],
         rule=("suites W-json / R-json: JSONWriter.transform() (returned text = file bytes, parsed back with json.loads) vs "
               "the model's [json_write]; JSONReader on the file and JSONReader.parse_json on the loaded object vs "
